@@ -29,6 +29,8 @@ CONSTANTS
   SwWrapByLast,       \* F5: member wrapping decided by the last invariant only
   SwRebindWrapped,    \* F18a: an inherited member that is already wrapped is bound again in the subclass dictionary
   SwShareGroups,      \* F17: the merged precondition list of a subclass holds the base's group list objects themselves
+  SwRecollapse,       \* F24: a class re-created from the dictionary of an existing class (dataclass(slots=True), attrs)
+                      \*      inherits the contracts of the bases a second time
   SwShadow            \* F18b: a wrapper bound in a class dictionary shadows, for subclasses with several bases,
                       \*       definitions that come later in the method resolution order
 
@@ -92,6 +94,9 @@ InvListOf(ch, k, which) == FirstInv(ch, ch[k].mro, 1, which)
 (* decorator stack applied, bottom-up.                                      *)
 
 CD == hist.cls[step]
+\* a class statement may be the RE-CREATION of an earlier class k from its dictionary: type(K)(name, K.__bases__,
+\* dict(K.__dict__)) - what dataclasses.dataclass(slots=True) and attrs do.  0 = an ordinary class statement.
+CloneOf == IF "clone_of" \in DOMAIN CD THEN CD.clone_of ELSE 0
 Names == RangeS(hist.names)
 CON(c) == hist.con[c]
 
@@ -156,7 +161,12 @@ Fail(e) == /\ res' = [res EXCEPT ![step] = e]
 
 Members ==
   /\ pc = "members"
-  /\ LET r == BuildMembers(fo, lst, EmptyNs, 1) IN
+  /\ LET r == IF CloneOf # 0
+                THEN \* the namespace is the dictionary of the existing class: the very same function objects, also the
+                     \* wrappers of inherited members that were bound in it (they are "own" definitions now)
+                     [fh |-> fo, lh |-> lst, err |-> "ok",
+                      ns |-> [x \in DOMAIN cl[CloneOf].d |-> [cl[CloneOf].d[x] EXCEPT !.rb = FALSE]]]
+                ELSE BuildMembers(fo, lst, EmptyNs, 1) IN
      /\ fo' = r.fh /\ lst' = r.lh
      /\ IF r.err = "ok"
           THEN ns' = r.ns /\ pc' = "meta" /\ UNCHANGED <<res, cl>>
@@ -205,9 +215,15 @@ MetaMember(fh, lh, nsp, name) ==
            ELSE BaseLists(cl, fh, lh, CD.bases, name, [has |-> FALSE, pre |-> <<>>, snap |-> <<>>, post |-> <<>>, free |-> FALSE])
       \* "require else": inherited groups first, then the own group; if an ancestor accepts every call the
       \* effective precondition is TRUE (no group at all)
-      pre  == IF ~SwKeepBasePre /\ b.free THEN <<>> ELSE b.pre \o ownPre
-      snap == b.snap \o ownSnap
-      post == b.post \o ownPost
+      \* contracts that were inherited from the bases before (a re-created class) are not inherited a second time:
+      \* the very same contract objects are recognised (unless SwRecollapse)
+      ownPreD  == IF SwRecollapse THEN ownPre
+                  ELSE SelectSeq(ownPre, LAMBDA g : ~\E i \in DOMAIN b.pre : lh[g] = lh[b.pre[i]])
+      ownSnapD == IF SwRecollapse THEN ownSnap ELSE SelectSeq(ownSnap, LAMBDA c : ~\E i \in DOMAIN b.snap : b.snap[i] = c)
+      ownPostD == IF SwRecollapse THEN ownPost ELSE SelectSeq(ownPost, LAMBDA c : ~\E i \in DOMAIN b.post : b.post[i] = c)
+      pre  == IF ~SwKeepBasePre /\ b.free THEN <<>> ELSE b.pre \o ownPreD
+      snap == b.snap \o ownSnapD
+      post == b.post \o ownPostD
   IN
   IF mem.kind = "none" THEN [fh |-> fh, lh |-> lh, ns |-> nsp, err |-> "ok"]
   ELSE IF ~ctor /\ b.pre = <<>> /\ b.has /\ ownPre # <<>>
@@ -222,7 +238,7 @@ MetaMember(fh, lh, nsp, name) ==
        \* appended to through the subclass's checker.
        LET ninh == IF SwShareGroups \/ pre = <<>> THEN 0 ELSE Len(b.pre)
            lh0 == CopyLists(lh, b.pre, 1, ninh)
-           pre1 == IF ninh = 0 THEN pre ELSE [i \in 1..ninh |-> Len(lh) + i] \o ownPre
+           pre1 == IF ninh = 0 THEN pre ELSE [i \in 1..ninh |-> Len(lh) + i] \o ownPreD
            lh1 == Append(Append(Append(lh0, pre1), snap), post)
            p == Len(lh0) + 1  s == Len(lh0) + 2  q == Len(lh0) + 3
        IN IF chk # 0
@@ -230,16 +246,27 @@ MetaMember(fh, lh, nsp, name) ==
             ELSE [fh |-> Append(fh, FnObj("chk", mem.f, p, s, q)), lh |-> lh1,
                   ns |-> [nsp EXCEPT ![name] = [kind |-> mem.kind, f |-> Len(fh) + 1, rb |-> FALSE]], err |-> "ok"]
 
-RECURSIVE MetaMembers(_, _, _, _)
+\* every entry of the namespace (for an ordinary class statement: the members it declares), in a fixed order
+RECURSIVE SeqOfSet(_)
+SeqOfSet(S) == IF S = {} THEN <<>> ELSE LET x == CHOOSE y \in S : TRUE IN <<x>> \o SeqOfSet(S \ {x})
+RECURSIVE MetaMembersOf(_, _, _, _, _)
+MetaMembersOf(fh, lh, nsp, names, i) ==
+  IF i > Len(names) THEN [fh |-> fh, lh |-> lh, ns |-> nsp, err |-> "ok"]
+  ELSE LET r == MetaMember(fh, lh, nsp, names[i]) IN
+       IF r.err # "ok" THEN r ELSE MetaMembersOf(r.fh, r.lh, r.ns, names, i + 1)
 MetaMembers(fh, lh, nsp, i) ==
-  IF i > Len(CD.members) THEN [fh |-> fh, lh |-> lh, ns |-> nsp, err |-> "ok"]
-  ELSE LET r == MetaMember(fh, lh, nsp, CD.members[i].name) IN
-       IF r.err # "ok" THEN r ELSE MetaMembers(r.fh, r.lh, r.ns, i + 1)
+  MetaMembersOf(fh, lh, nsp, IF CloneOf # 0 THEN SeqOfSet(DOMAIN nsp) ELSE [j \in DOMAIN CD.members |-> CD.members[j].name], 1)
 
 \* _collapse_invariants for one dunder: a new merged list in the namespace
 CollapseInv(lh, which) ==
-  LET merged == BaseInvs(cl, lh, CD.bases, which) IN
+  LET inh == BaseInvs(cl, lh, CD.bases, which)
+      \* a re-created class brings the list of the existing class in its namespace (if that class owns one)
+      nsl == IF CloneOf # 0 /\ cl[CloneOf][which] # 0 THEN lh[cl[CloneOf][which]] ELSE <<>>
+      own == IF SwRecollapse THEN nsl ELSE SelectSeq(nsl, LAMBDA c : ~\E i \in DOMAIN inh : inh[i] = c)
+      merged == inh \o own
+  IN
   IF merged # <<>> \/ (~SwNoOwnEmptyInvList /\ AnyBaseHas(cl, CD.bases, which))
+     \/ (CloneOf # 0 /\ cl[CloneOf][which] # 0)
     THEN [lh |-> Append(lh, merged), id |-> Len(lh) + 1]
     ELSE [lh |-> lh, id |-> 0]
 
@@ -305,7 +332,8 @@ Create ==
      IN /\ fo' = r.fh /\ cl' = r.ch
         \* every class created through the metaclass outside the library's own module is announced
         /\ regd' = IF CD.dbc /\ CD.mod # "icontract._metaclass" THEN Append(regd, k) ELSE regd
-        /\ pc' = "deco" /\ di' = 1
+        \* (the class decorators of a re-created class: only those applied after the re-creation)
+        /\ pc' = "deco" /\ di' = IF CloneOf # 0 THEN Len(hist.cls[CloneOf].invs) + 1 ELSE 1
   /\ UNCHANGED <<hist, step, lst, ns, res>>
 
 -----------------------------------------------------------------------------
